@@ -50,6 +50,15 @@ s = Substance("X", composition=dict(comp))
 m1 = s.mass; m2 = s.mass
 if m1 != m2 or s.composition != comp: bad.append("repeated Substance.mass reads differ / composition mutated: %%r %%r %%r" %% (m1, m2, s.composition))
 if abs(m1 - exp) > slack + 1e-12: bad.append("Substance.mass %%r vs reference %%r" %% (m1, exp))
+for fstr, parts_ in (("CuSO4..3Cu(OH)2..H2O", (("CuSO4", 1), ("Cu(OH)2", 3), ("H2O", 1))), ("Na2CO3..NaHCO3..2H2O", (("Na2CO3", 1), ("NaHCO3", 1), ("H2O", 2))),
+                     ("CaSO4..H2O", (("CaSO4", 1), ("H2O", 1)))):
+    tot_ = sum(n_ * Substance.from_formula(f_).mass for f_, n_ in parts_)
+    if abs(Substance.from_formula(fstr).mass - tot_) > 1e-9 * tot_: bad.append("mass of %%s is %%r, its parts add up to %%r" %% (fstr, Substance.from_formula(fstr).mass, tot_))
+me = ref["electron_mass_u"]
+for qv in (-1, -2, 3):
+    mbare = mass_from_composition({0: qv})
+    if abs(mbare + qv * me) > 1e-3 * me * abs(qv): bad.append("mass of a bare charge %%d is %%r, expected %%r" %% (qv, mbare, -qv * me))
+if abs(Substance.from_formula("e-").mass - me) > 1e-3 * me: bad.append("mass of 'e-' is %%r" %% Substance.from_formula("e-").mass)
 for fstr, expc in (("Fe", {26: 1}), ("H2O", {1: 2, 8: 1})):
     Substance.from_formula(fstr, charge=3)
     again = Substance.from_formula(fstr)
@@ -92,6 +101,14 @@ def task_table():
             again = Substance.from_formula(fstr)
             hist.append((fstr, dict(again.composition), again.mass, periodic.mass_from_composition({k: v for k, v in again.composition.items() if k != 0})))
         hist_ok.append(hist)
+        # additivity over hydrate parts (counted part followed by an uncounted one, and the reverse): mass(formula) = sum of the parts
+        for fstr, parts_ in (("CuSO4..3Cu(OH)2..H2O", (("CuSO4", 1), ("Cu(OH)2", 3), ("H2O", 1))), ("Na2CO3..NaHCO3..2H2O", (("Na2CO3", 1), ("NaHCO3", 1), ("H2O", 2))),
+                             ("CaSO4..H2O", (("CaSO4", 1), ("H2O", 1)))):
+            tot_ = sum(n_ * Substance.from_formula(f_).mass for f_, n_ in parts_)
+            if abs(Substance.from_formula(fstr).mass - tot_) > 1e-9 * tot_:
+                hydr_bad.append(fstr)
+        # degenerate composition: nothing but a charge (the electron and its multiples) - the mass is -q * m_e
+        bare.append((periodic.mass_from_composition({0: q}), Substance.from_formula("e-").mass, Substance("E", composition={0: q}).mass))
         m = periodic.mass_from_composition(dict(comp))
         s = Substance("X", composition=dict(comp))
         m1 = s.mass
@@ -101,12 +118,16 @@ def task_table():
 
     parts = {}
     hist_ok = []
+    bare = []
+    hydr_bad = []
     EXPECT = {"Fe": {26: 1}, "H2O": {1: 2, 8: 1}}
 
     def goal(p, twin=False):
         if p.kind == "exc":
             return False
         m, m1, m2, comp_after, mgiven = p.value
+        if hydr_bad:
+            return False
         hconds = []
         for fstr, c2, mass2, mneutral in hist_ok[-1]:
             if {k: v for k, v in c2.items() if not (k == 0 and not isinstance(v, SymNum) and v == 0)} != EXPECT[fstr]:
@@ -123,7 +144,11 @@ def task_table():
         parts["value"] = z3.And(mt - ref <= slack, ref - mt <= slack)
         parts["reads"] = z3.And(eq_term(m1, m), eq_term(m2, m), eq_term(mgiven, Real("given")))
         parts["history"] = z3.And(*hconds)
-        return z3.And(parts["value"], parts["reads"], parts["history"])
+        mb, me1, mb2 = bare[-1]
+        tolq = z3.If(q.t >= 0, q.t, -q.t) * _q(me * 1e-3)
+        parts["bare"] = z3.And(lift(mb) + q.t * _q(me) <= tolq, -(lift(mb) + q.t * _q(me)) <= tolq, eq_term(mb2, mb),
+                               z3.BoolVal(abs(float(me1) - me) <= 1e-3 * me))
+        return z3.And(parts["value"], parts["reads"], parts["history"], parts["bare"])
 
     o = explore_and_prove(run, assum, goal)
     ot = explore_and_prove(run, assum, lambda p: goal(p, True), max_fail=1)
